@@ -191,6 +191,40 @@ def gen_case_repeating_restart(seed, tier, index=0):
             'sched_seed': rr.getrandbits(48)}
 
 
+def gen_case_stop_during_restart(seed, tier, index=0):
+    """C12 sub-profile aimed at one window: a component is being restarted (postMortemCheck -> Engine.restart) at the very
+    moment a sibling's unrecoverable exit makes the controller stop the stage (finish(SHUTDOWN) on every component).
+    Siblings end in the same instant; the functions of the restart / finish / shutdown path are this run's focus set"""
+    rr = random.Random(seed)
+    d = rr.choice([0.3, 2.0, 6.0])
+    nrest = rr.choice([1, 1, 2])
+    comps, plan, hook = [], {}, {}
+    for i in range(nrest):
+        name = 'AB'[i]
+        c = {'name': name, 'stage': 0, 'refs': []}
+        if rr.random() < 0.3:
+            c['restartHookFile'] = 'myhook.py'
+            c['restartHookOn'] = ['ResourceExhausted']
+            hook[name] = [rr.choice(['Possible', 'Possible', 'HookNotAvailable', 'slowPossible'])]
+        comps.append(c)
+        plan[name] = {'default': {'dur': 8.0, 'exit': 'Success'},
+                      'execs': [{'dur': d, 'exit': 'ResourceExhausted'} for _ in range(rr.choice([1, 2]))]}
+    comps.append({'name': 'F', 'stage': 0, 'refs': []})
+    # F fails for good when the others exit for the 1st (or 2nd) time - or a little later
+    plan['F'] = {'default': {'dur': 1.0, 'exit': 'Success'},
+                 'execs': [{'dur': d * rr.choice([1, 1, 1, 2]) + rr.choice([0.0, 0.0, 0.0, 1.0, 5.0]),
+                            'exit': rr.choice(['KnownIssue', 'KnownIssue', 'UnknownIssue', 'Killed'])}]}
+    knobs = common.knobs_from(rr, tier)
+    knobs['workers'] = rr.choice([None, 2, 4])
+    knobs['launch_delay'] = 0.0
+    knobs['stall_p'] = 0.0
+    knobs['focus'] = [sorted(rr.sample(['restart', '_restartComponent', 'postMortemCheck', '_finish', 'finish', 'shutdown',
+                                        '_stopComponents', 'finishedCheck', 'run', 'isAlive', 'TransitionComponentToFinalState'],
+                                       rr.choice([2, 3, 4]))), rr.choice([0.1, 0.3, 0.6])]
+    return {'comps': comps, 'stage_opts': {}, 'plan': plan, 'hook': hook, 'hook_file': bool(hook), 'knobs': knobs,
+            'sched_seed': rr.getrandbits(48)}
+
+
 def gen_case_restart(seed, tier, index=0):
     """C12 profile: 1-3 components, long failure sequences, every restart attribute combination"""
     rr = random.Random(seed)
@@ -765,8 +799,9 @@ def classify_hang(nodes, ev, stuck):
             stale = [e[0] for e in evs if e[2] == 'postMortemCheck' and e[4].get('exitReason') is None]
             last_exit = max([e[0] for e in evs if e[2] in ('exit', 'launch-fail')] or [0])
             last_pm = max([e[0] for e in evs if e[2] == 'postMortemCheck'] or [0])
-            if stale and last_pm == stale[-1] and last_exit > last_pm and not stopped:
-                # a stale notification (engine alive again) was the last one; the real exit after it changed nothing
+            if stale and last_pm == stale[-1] and not stopped:
+                # a stale notification (engine alive again: no exit reason) was the last one; the real exit - which the
+                # engine took note of after it, whether the task itself ended before or after - changed nothing
                 shapes.add('postmortem-stuck:after-stale-notification')
             elif restarted and stopped:
                 shapes.add('postmortem-stuck:stopped-while-restarting')
